@@ -1301,7 +1301,6 @@ func probeBigUniform() *failure {
 	return nil
 }
 
-
 // oneSampleFragment: CreateFragment(seq,1) with one 1-byte full sample
 func oneSampleFragment(seq uint32, b byte) *mp4.Fragment {
 	f, _ := mp4.CreateFragment(seq, 1)
@@ -1405,6 +1404,40 @@ func probeEmsg() *failure {
 	return nil
 }
 
+// probeEncodeTwice: an optimised Encode in the middle of a history rewrites the trun flags in place; samples added afterwards
+// must still read back with their own values (finding C05-F10; outside the property's quantifier: one encode at the end)
+func probeEncodeTwice() *failure {
+	f, _ := mp4.CreateFragment(1, 1)
+	add := func(dur uint32, dts uint64, b byte) mp4.FullSample {
+		s := mp4.FullSample{Sample: mp4.Sample{Flags: 0x1010000, Dur: dur, Size: 1}, DecodeTime: dts, Data: []byte{b}}
+		f.AddFullSample(s)
+		return s
+	}
+	want := []mp4.FullSample{add(10, 0, 1), add(10, 10, 2)}
+	if _, c := encodeFrag(f, true, false); c != 'o' {
+		return &failure{"Fragment.Encode", "error", "two equal samples do not encode"}
+	}
+	want = append(want, add(20, 20, 3))
+	b, c := encodeFrag(f, true, false)
+	if c != 'o' {
+		return &failure{"Fragment.Encode", "error", "second Encode fails"}
+	}
+	df, dc := decodeAll(b, false)
+	if dc != 'o' {
+		return &failure{"DecodeFile", "error", "the fragment encoded twice does not decode"}
+	}
+	got, gc := getFull(df.Segments[0].Fragments[0], nil)
+	if gc != 'o' || len(got) != len(want) {
+		return &failure{"roundtrip", "sample-count", "the fragment encoded twice reads back another number of samples"}
+	}
+	for i := range want {
+		if d := sameFull(want[i], got[i]); d != "" {
+			return &failure{"Fragment.Encode", "additions-after-optimised-encode", fmt.Sprintf("CreateFragment(1,1); AddFullSample(dur 10) x 2; OptimizeTrun; Encode; AddFullSample(dur 20); Encode; DecodeFile -> sample %d differs in %s (duration read back %d)", i, d, got[i].Dur)}
+		}
+	}
+	return nil
+}
+
 // probeMixed: metadata-only and full samples mixed in one fragment (finding C05-F8): the mdat header announces the lazy
 // size only while the full samples' data is written before the caller's data
 func probeMixed() *failure {
@@ -1461,6 +1494,10 @@ func cmdSearch(seed uint64, n int, exh int) {
 	evals++
 	if f := probeMixed(); f != nil {
 		fmt.Fprintf(out, "FAIL\t%s\t%s\t%s\t%s\n", f.site, f.class, "probe:mixed (harness/c05/main.go probeMixed)", f.desc)
+	}
+	evals++
+	if f := probeEncodeTwice(); f != nil {
+		fmt.Fprintf(out, "FAIL\t%s\t%s\t%s\t%s\n", f.site, f.class, "probe:encodetwice (harness/c05/main.go probeEncodeTwice)", f.desc)
 	}
 	evals++
 	if f := probeEmsg(); f != nil {
@@ -1524,6 +1561,14 @@ func cmdReplay(w string) {
 			f = probeMixed()
 		}
 		if f != nil {
+			fmt.Fprintf(out, "FAIL\t%s\t%s\t%s\t%s\n", f.site, f.class, w, f.desc)
+		} else {
+			fmt.Fprintln(out, "HOLDS")
+		}
+		return
+	}
+	if strings.HasPrefix(w, "probe:encodetwice") {
+		if f := probeEncodeTwice(); f != nil {
 			fmt.Fprintf(out, "FAIL\t%s\t%s\t%s\t%s\n", f.site, f.class, w, f.desc)
 		} else {
 			fmt.Fprintln(out, "HOLDS")
@@ -2155,7 +2200,6 @@ func emitG(id string, sg *Seg, sr *segRun, stats map[string]int) {
 	fmt.Fprintf(out, "G\t%s\t%s\t%s\t%s\n", id, cfg, strings.Join(frs, "#"), sb.String())
 }
 
-
 // ------------------------------------------------------------------ corr: L cases (Fragment.Children under AddEmsg / AddChild)
 
 // cmdCorrL: AddEmsg / AddChild / Encode histories on fragments of every origin: CreateFragment, CreateMultiTrackFragment,
@@ -2443,6 +2487,21 @@ func cmdCorr(seed uint64, n int, exh int) {
 			emitH(fmt.Sprintf("h%d.%d", i, k), sg, sr, k, stats)
 		}
 		emitG(fmt.Sprintf("g%d", i), sg, sr, stats)
+	}
+	// the witness of C05_sidx_guard_refuted on the real code: no styp, a sidx whose first reference starts at the emsg in
+	// front of the moof and whose second reference starts at the moof: DecodeFile leaves a fragment without moof
+	{
+		emsgSize := uint32(mkBox(400000).Size())
+		for dec := 0; dec < 4; dec++ {
+			sg := &Seg{NTracks: 1, Trex: [][3]uint32{{0, 0, 0}}, Dec: dec,
+				Sidx:  []SidxSpec{{First: 0, Refs: [][2]uint32{{0, emsgSize}, {0, 500}}}},
+				Frags: []Frag{{Seq: 1, Tracks: []uint32{1}, Emsg: 1, Ops: []Op{{K: "F", Tr: 1, Ss: []Smp{{F: 0x1010000, D: 10, S: 1}}, Data: "07"}}}}}
+			sr := runSeg(sg)
+			if fs := sr.decodedFrags(); len(fs) == 2 && fs[0].Moof == nil {
+				stats["G.sidx-moofless-witness"]++
+			}
+			emitG(fmt.Sprintf("gsx%d", dec), sg, sr, stats)
+		}
 	}
 	ne := 0
 	genExh(exh, func(sg *Seg) {
